@@ -17,9 +17,19 @@ def run_rules(prop: str, repo: str, tier: str) -> report.Context:
     prog = core.Program(repo)
     ctx = report.Context(prop, prog, tier)
     mod = importlib.import_module(f'fv.rules.{prop}')
-    mod.run(ctx)
-    if tier == 'thorough' and hasattr(mod, 'thorough'):
-        mod.thorough(ctx)
+    ctx.analysis_error = None
+    try:
+        mod.run(ctx)
+        if tier == 'thorough' and hasattr(mod, 'thorough'):
+            mod.thorough(ctx)
+    except core.AnalysisError as err:
+        # the rules that ran before the analysis stopped stand on their own: their findings are reported (cli.main); only a
+        # run without any finding is "cannot decide"
+        ctx.analysis_error = str(err)
+    except MemoryError:
+        raise
+    except Exception:  # pylint: disable=broad-except
+        ctx.analysis_error = 'checker crashed: ' + traceback.format_exc(limit=6)
     return ctx
 
 
@@ -66,6 +76,19 @@ def main(argv=None) -> int:
     try:
         ctx = run_rules(prop, args.repo, args.tier)
         extra = {}
+        if ctx.analysis_error is not None:
+            if report.new_findings(ctx):
+                rc = report.finish(ctx, started, seed, mod.EXPLANATION, list(getattr(mod, 'ASSUMPTIONS', [])), {'analysis_stopped': ctx.analysis_error[:400]})
+                if ctx.analysis_error.startswith('checker crashed'):
+                    print(ctx.analysis_error)
+                print(f'ANALYSIS-NOTE property={prop}: the analysis stopped early ({ctx.analysis_error.splitlines()[0][:200]}); the violations above were established before that')
+                return rc
+            if ctx.analysis_error.startswith('checker crashed'):
+                print(ctx.analysis_error)
+                print(f'ANALYSIS-ERROR property={prop}: checker crashed (traceback above)')
+            else:
+                print(f'ANALYSIS-ERROR property={prop}: {ctx.analysis_error}')
+            return 2
         if args.replay:
             with open(args.replay, encoding='utf-8') as fh:
                 want = json.load(fh)
